@@ -70,11 +70,21 @@ def _native_(i):
         first = by_kind[kinds[0]]
         r = np.zeros(len(first), dtype=strax.time_fields)
         r["time"], r["endtime"] = first["time"], first["endtime"]
+        if self.multi_output:
+            return dict(out=r, out2=r.copy())
         return r
 
-    P = type("P", (strax.Plugin,), dict(provides=("out",), depends_on=tuple(names), data_kind=kinds[0], dtype=strax.time_fields,
-                                        compute=ns["compute"], _compute=_compute, __version__="0",
-                                        save_when=strax.SaveWhen.ALWAYS if i["saving"] else strax.SaveWhen.NEVER))
+    if i.get("mixed"):
+        # a multi-output plugin with one never-saved and one always-saved output: it saves by default
+        from immutabledict import immutabledict
+        P = type("P", (strax.Plugin,), dict(provides=("out", "out2"), depends_on=tuple(names), data_kind=dict(out=kinds[0], out2="kout2"),
+                                            dtype=dict(out=strax.time_fields, out2=strax.time_fields),
+                                            compute=ns["compute"], _compute=_compute, __version__="0",
+                                            save_when=immutabledict(out=strax.SaveWhen.NEVER, out2=strax.SaveWhen.ALWAYS)))
+    else:
+        P = type("P", (strax.Plugin,), dict(provides=("out",), depends_on=tuple(names), data_kind=kinds[0], dtype=strax.time_fields,
+                                            compute=ns["compute"], _compute=_compute, __version__="0",
+                                            save_when=strax.SaveWhen.ALWAYS if i["saving"] else strax.SaveWhen.NEVER))
     p = P()
     p.run_id = "0"
     p.deps = {n: _provider(n, d["kind"])() for n, d in zip(names, deps)}
@@ -87,6 +97,7 @@ def _native_(i):
     res = dict(error=None, outputs=[])
     try:
         for c in p.iter(iters):
+            c = c["out"] if isinstance(c, dict) else c
             res["outputs"].append((int(c.start), int(c.end), len(c)))
     except Exception as ex:  # noqa
         res["error"] = f"{type(ex).__name__}: {str(ex)[:140]}"
@@ -159,6 +170,14 @@ def _gen(rng, tier):
     T = 6
     rs = _rowsets(T)
     shapes = [("k0", "k1"), ("k0", "k0"), ("k0", "k1", "k0")] + ([("k0", "k1", "k2"), ("k0", "k0", "k1", "k1")] if thorough else [])
+    # dependencies ending at different times with rows that can never be delivered (always part of the scope)
+    for long_rows, short_T in (([[0, 1], [3, 4]], 2), ([[1, 3], [4, 6]], 3), ([[0, 2], [5, 6]], 4)):
+        d_long = dict(kind="k0", rows=long_rows, cuts=[0, T])
+        d_short = dict(kind="k1", rows=[[0, 1]] if short_T > 1 else [], cuts=[0, short_T])
+        for deps in ([d_long, d_short], [d_short, d_long]):
+            yield dict(deps=deps, saving=True)
+            yield dict(deps=deps, saving=False)
+            yield dict(deps=deps, saving=True, mixed=True)
     for shape in shapes:
         for _ in range(60 if thorough else 12):
             rows_by_kind = {k: rng.choice(rs) for k in set(shape)}
@@ -177,6 +196,7 @@ def _gen(rng, tier):
                     d2[j]["cuts"] = d2[j]["cuts"][:-1] + [Tj]
                     yield dict(deps=d2, saving=True)
                     yield dict(deps=d2, saving=False)
+                    yield dict(deps=d2, saving=True, mixed=True)
 
 
 plugin_iter = Contract(
@@ -184,6 +204,6 @@ plugin_iter = Contract(
     harness=Harness(native=_native, gen=_gen,
                     scope="2..3 (thorough: 4) dependencies of 1..3 data kinds on the grid 0..6, 6 row sets per kind (empty, rows touching, rows "
                           "spanning several grid cells), every dependency in its own law-abiding chunking with up to 3 inner cuts and "
-                          "zero-duration chunks, equal and unequal ends, saving and non-saving plugin; the real Plugin.iter / do_compute / "
+                          "zero-duration chunks, equal and unequal ends, saving, non-saving and mixed (multi-output: one never-saved, one always-saved output) plugin; the real Plugin.iter / do_compute / "
                           "Chunk.split / concatenate / merge driven by hand-made chunk iterators",
                     nontrivial=lambda i: len(i["deps"]) > 1))
